@@ -173,6 +173,38 @@ func TestC17(t *testing.T) {
 		if c.Thorough {
 			n = 40000
 		}
+		c.Rapid("nested-builtin-arguments", n/2, func(rt *rapid.T, s *Sub) {
+			var gen func(d int) string
+			gen = func(d int) string {
+				if d <= 0 || rapid.IntRange(0, 2).Draw(rt, "leaf") == 0 {
+					return rapid.SampledFrom([]string{"1", "2", "3", "(-3)", "(-5)", "0.5", "(-7.5)", "4", "9", "10", "\"x\"", "nil"}).Draw(rt, "lit")
+				}
+				switch rapid.IntRange(0, 7).Draw(rt, "fn") {
+				case 0:
+					return bn.BAbs + "(" + gen(d-1) + ")"
+				case 1:
+					return bn.BRound + "(" + gen(d-1) + ")"
+				case 2:
+					return bn.BSqrt + "(" + gen(d-1) + ")"
+				case 3:
+					return bn.BPow + "(" + gen(d-1) + ", " + gen(d-1) + ")"
+				case 4:
+					return bn.BMin + "(" + gen(d-1) + ", " + gen(d-1) + ", " + gen(d-1) + ")"
+				case 5:
+					return bn.BMax + "(" + gen(d-1) + ", " + gen(d-1) + ")"
+				case 6:
+					return "idf(" + gen(d-1) + ")"
+				default:
+					return bn.BLen + "(" + bn.BPush + "([1], " + gen(d-1) + ", " + gen(d-1) + "))"
+				}
+			}
+			src := bn.KwFun + " idf(v) { " + bn.KwReturn + " " + bn.BAbs + "(v) - " + bn.BAbs + "(v) + v; }\n"
+			k := rapid.IntRange(1, 4).Draw(rt, "prints")
+			for i := 0; i < k; i++ {
+				src += P + " " + gen(rapid.IntRange(1, 3).Draw(rt, "depth")) + ";\n"
+			}
+			c.c17Program(s, "nested-builtin-arguments", place(src, drawPlacement(rt)), true, false, "nested-builtins")
+		})
 		c.Rapid("rand-doubles", n, func(rt *rapid.T, s *Sub) {
 			draw := func(label string) float64 {
 				switch rapid.IntRange(0, 3).Draw(rt, label+"k") {
